@@ -123,44 +123,7 @@ func checkC09(p *Program, r *Report) {
 		fatalf("anchor: no path of onOutgoingFrameEnqueued borrows a stream id")
 	}
 
-	// ---- incoming-release -------------------------------------------------------------------------
-	_, outs = clientRun(p, "inFlightRequestsHandler", "onIncomingFrameReceived", "isLastFrame", "inFlightRequestsHandler.removeInFlight", "inFlightRequestsHandler.releaseStreamId", "inFlightRequest.onFrameReceived", "inFlightRequestsHandler.isClosed")
-	r.Floor("incoming-release", 4)
-	for _, o := range outs {
-		ev := pathEvents(o)
-		key := fmt.Sprintf("onIncomingFrameReceived path %s {%s}", strings.Join(ev, ","), strings.Join(o.St.atomLog, " "))
-		removed := hasEvent(ev, "call inFlightRequestsHandler.removeInFlight")
-		released := hasEvent(ev, "call inFlightRequestsHandler.releaseStreamId")
-		last, lastKnown := o.St.atoms["isLastFrame(p0)"]
-		managed, managedKnown := false, false
-		for a, pol := range o.St.atoms {
-			if strings.HasSuffix(a, ".managedStreamId") {
-				managed, managedKnown = pol, true
-			}
-		}
-		foundEntry := false
-		for a, pol := range o.St.atoms {
-			if strings.HasPrefix(a, "has(recv.inFlight[") && pol {
-				foundEntry = true
-			}
-		}
-		switch {
-		case foundEntry && !lastKnown:
-			r.Fail("incoming-release", key, token.NoPos, "a frame addressed to a registered request leaves the handler before it is decided whether it is the last frame of the response: if it is, the entry stays registered and its stream id is never returned to the pool")
-		case removed && (!lastKnown || !last):
-			r.Fail("incoming-release", key, token.NoPos, "the in-flight entry is removed on a frame that is not the last one of its response")
-		case lastKnown && last && !removed:
-			r.Fail("incoming-release", key, token.NoPos, "the last frame of a response does not remove the in-flight entry")
-		case released && !removed:
-			r.Fail("incoming-release", key, token.NoPos, "a stream id is released while its request stays registered")
-		case removed && !released && !(managedKnown && !managed):
-			r.Fail("incoming-release", key, token.NoPos, "the entry of a managed request is removed but its id is not returned to the pool on this path (e.g. when delivery fails): after all requests are answered fewer than N ids remain")
-		case removed && managedKnown && !managed && released:
-			r.Fail("incoming-release", key, token.NoPos, "a caller-chosen id is put into the pool of managed ids")
-		default:
-			r.OKf("incoming-release", key, token.NoPos, "last=%v removed=%v released=%v", last, removed, released)
-		}
-	}
+	c09IncomingRelease(p, r)
 
 	c09AtomicInsert(p, r)
 	c09NonBlocking(p, r)
@@ -406,11 +369,47 @@ func (g *Guards) storesToPlain(fn *ssa.Function, base ssa.Value, name string) []
 func c09LastFrame(p *Program, r *Report) {
 	r.Floor("last-frame", 3)
 	fn := p.LookupFunc("client", "isLastFrame")
+	resultOp, _ := constant.Int64Val(p.Pkg("primitive").Types.Scope().Lookup("OpCodeResult").(*types.Const).Val())
+	rowsT, _ := constant.Int64Val(p.Pkg("primitive").Types.Scope().Lookup("ResultTypeRows").(*types.Const).Val())
+	// per protocol version: in versions that have multi-page responses (continuous paging: DSE v1
+	// and v2, spec/capabilities.tsv SupportsQueryFlag 0x80000000) no frame may be classified without
+	// its opcode having been examined - a version gate that is too narrow completes requests early
+	{
+		pe := newPenum(p)
+		pvT := p.LookupType("primitive", "ProtocolVersion").Type()
+		for _, v := range supportedVersions(p, pe) {
+			ver := versionLabel(v)
+			if ver != "D1" && ver != "D2" {
+				continue
+			}
+			inV := newInterp(p, &effHooks{})
+			_, argsV := paramVals(fn)
+			st := newState()
+			st.refine["p0.Header.Version"] = constVal(v, pvT).C
+			for _, o := range inV.RunFunc(fn, nil, argsV, st) {
+				opKnown := false
+				for k := range o.St.refine {
+					if strings.HasSuffix(k, "Header.OpCode") {
+						opKnown = true
+					}
+				}
+				for k := range o.St.exclude {
+					if strings.HasSuffix(k, "Header.OpCode") {
+						opKnown = true
+					}
+				}
+				key := fmt.Sprintf("isLastFrame@%s {%s}", ver, describeAtoms(o.St))
+				if !opKnown {
+					r.Fail("last-frame", key, fn.Pos(), "in %s, which has multi-page (continuous paging) responses, a frame is classified as last=%v without its opcode being examined: non-final pages complete their request and free its stream id while the server keeps sending under it", ver, o.Ret)
+				} else {
+					r.OKf("last-frame", key, fn.Pos(), "opcode examined")
+				}
+			}
+		}
+	}
 	in := newInterp(p, &effHooks{})
 	_, args := paramVals(fn)
 	outs := in.RunFunc(fn, nil, args, nil)
-	resultOp, _ := constant.Int64Val(p.Pkg("primitive").Types.Scope().Lookup("OpCodeResult").(*types.Const).Val())
-	rowsT, _ := constant.Int64Val(p.Pkg("primitive").Types.Scope().Lookup("ResultTypeRows").(*types.Const).Val())
 	for _, o := range outs {
 		if len(o.Ret) != 1 {
 			continue
@@ -487,6 +486,52 @@ func c09LastFrame(p *Program, r *Report) {
 	}
 }
 
+// c09IncomingRelease: on the receive path an id is released exactly on the paths that removed the
+// entry, the entry is removed exactly on last frames, and no frame for a registered request leaves
+// before that is decided (shared by C09 and C10: an entry removed early lets the id be reused while
+// pages of the old response are still arriving, which are then delivered to the wrong request).
+func c09IncomingRelease(p *Program, r *Report) {
+	// ---- incoming-release -------------------------------------------------------------------------
+	_, outs := clientRun(p, "inFlightRequestsHandler", "onIncomingFrameReceived", "isLastFrame", "inFlightRequestsHandler.removeInFlight", "inFlightRequestsHandler.releaseStreamId", "inFlightRequest.onFrameReceived", "inFlightRequestsHandler.isClosed")
+	r.Floor("incoming-release", 4)
+	for _, o := range outs {
+		ev := pathEvents(o)
+		key := fmt.Sprintf("onIncomingFrameReceived path %s {%s}", strings.Join(ev, ","), strings.Join(o.St.atomLog, " "))
+		removed := hasEvent(ev, "call inFlightRequestsHandler.removeInFlight")
+		released := hasEvent(ev, "call inFlightRequestsHandler.releaseStreamId")
+		last, lastKnown := o.St.atoms["isLastFrame(p0)"]
+		managed, managedKnown := false, false
+		for a, pol := range o.St.atoms {
+			if strings.HasSuffix(a, ".managedStreamId") {
+				managed, managedKnown = pol, true
+			}
+		}
+		foundEntry := false
+		for a, pol := range o.St.atoms {
+			if strings.HasPrefix(a, "has(recv.inFlight[") && pol {
+				foundEntry = true
+			}
+		}
+		switch {
+		case foundEntry && !lastKnown:
+			r.Fail("incoming-release", key, token.NoPos, "a frame addressed to a registered request leaves the handler before it is decided whether it is the last frame of the response: if it is, the entry stays registered and its stream id is never returned to the pool")
+		case removed && (!lastKnown || !last):
+			r.Fail("incoming-release", key, token.NoPos, "the in-flight entry is removed on a frame that is not the last one of its response")
+		case lastKnown && last && !removed:
+			r.Fail("incoming-release", key, token.NoPos, "the last frame of a response does not remove the in-flight entry")
+		case released && !removed:
+			r.Fail("incoming-release", key, token.NoPos, "a stream id is released while its request stays registered")
+		case removed && !released && !(managedKnown && !managed):
+			r.Fail("incoming-release", key, token.NoPos, "the entry of a managed request is removed but its id is not returned to the pool on this path (e.g. when delivery fails): after all requests are answered fewer than N ids remain")
+		case removed && managedKnown && !managed && released:
+			r.Fail("incoming-release", key, token.NoPos, "a caller-chosen id is put into the pool of managed ids")
+		default:
+			r.OKf("incoming-release", key, token.NoPos, "last=%v removed=%v released=%v", last, removed, released)
+		}
+	}
+
+}
+
 // ---------------------------------------------------------------------------------------
 // C10
 
@@ -557,34 +602,64 @@ func checkC10(p *Program, r *Report) {
 	fn := ssaMethod(p, "client", "inFlightRequestsHandler", "onIncomingFrameReceived")
 	frameParam := fn.Params[1]
 	foundLookup := false
+	isStreamIdOfFrame := func(v ssa.Value) bool {
+		if u, ok := v.(*ssa.UnOp); ok && u.Op == token.MUL {
+			if hb, hf, ok := fieldAddrOf(u.X); ok && hf.Name() == "StreamId" {
+				return isFieldLoad(hb, frameParam, "Header")
+			}
+		}
+		return false
+	}
+	// the lookup may sit in the handler itself or in a helper method it calls with the key
+	type site struct {
+		fn   *ssa.Function
+		call *ssa.Call // nil for the handler itself
+	}
+	sites := []site{{fn, nil}}
 	for _, b := range fn.Blocks {
 		for _, ins := range b.Instrs {
-			lk, ok := ins.(*ssa.Lookup)
-			if !ok {
-				continue
-			}
-			f, _ := fieldOfLoad(lk.X)
-			if f == nil || f.Name() != "inFlight" {
-				continue
-			}
-			foundLookup = true
-			okKey := false
-			if u, ok := lk.Index.(*ssa.UnOp); ok && u.Op == token.MUL {
-				if hb, hf, ok := fieldAddrOf(u.X); ok && hf.Name() == "StreamId" {
-					if isFieldLoad(hb, frameParam, "Header") {
-						okKey = true
-					}
+			if c, ok := ins.(*ssa.Call); ok {
+				if g := c.Call.StaticCallee(); g != nil && g.Pkg == fn.Pkg && g.Blocks != nil && g.Signature.Recv() != nil {
+					sites = append(sites, site{g, c})
 				}
 			}
-			if okKey {
-				r.OKf("routing-key", "onIncomingFrameReceived lookup", lk.Pos(), "key is f.Header.StreamId of the frame being delivered")
-			} else {
-				r.Fail("routing-key", "onIncomingFrameReceived lookup", lk.Pos(), "the in-flight request is looked up with key %s, not the stream id of the received frame", describeVal(lk.Index))
+		}
+	}
+	for _, s := range sites {
+		for _, b := range s.fn.Blocks {
+			for _, ins := range b.Instrs {
+				lk, ok := ins.(*ssa.Lookup)
+				if !ok {
+					continue
+				}
+				f, _ := fieldOfLoad(lk.X)
+				if f == nil || f.Name() != "inFlight" {
+					continue
+				}
+				if s.call != nil && (s.fn.Name() == "removeInFlight" || s.fn.Name() == "addInFlight") {
+					continue // not the delivery lookup
+				}
+				foundLookup = true
+				okKey := false
+				if s.call == nil {
+					okKey = isStreamIdOfFrame(lk.Index)
+				} else if pp, ok := lk.Index.(*ssa.Parameter); ok {
+					for i, q := range s.fn.Params {
+						if q == pp && i < len(s.call.Call.Args) {
+							okKey = isStreamIdOfFrame(s.call.Call.Args[i])
+						}
+					}
+				}
+				if okKey {
+					r.OKf("routing-key", "onIncomingFrameReceived lookup", lk.Pos(), "key is f.Header.StreamId of the frame being delivered")
+				} else {
+					r.Fail("routing-key", "onIncomingFrameReceived lookup", lk.Pos(), "the in-flight request is looked up with key %s, not the stream id of the received frame", describeVal(lk.Index))
+				}
 			}
 		}
 	}
 	if !foundLookup {
-		fatalf("anchor: no lookup in the in-flight map on the receive path")
+		r.Fail("routing-key", "onIncomingFrameReceived lookup", fn.Pos(), "no lookup of the in-flight map by the frame's stream id was found on the receive path (neither in the handler nor in a helper it calls)")
 	}
 	_, outs = clientRun(p, "inFlightRequestsHandler", "onIncomingFrameReceived", "isLastFrame", "inFlightRequestsHandler.removeInFlight", "inFlightRequestsHandler.releaseStreamId", "inFlightRequest.onFrameReceived", "inFlightRequestsHandler.isClosed")
 	r.Floor("deliver-once", 3)
@@ -644,6 +719,7 @@ func checkC10(p *Program, r *Report) {
 	c10RequestDelivery(p, r)
 	c09LastFrame(p, r)
 	c10PendingCapacity(p, r)
+	c09IncomingRelease(p, r)
 	// under v5 several responses can share one self-contained segment: each must be delivered
 	if m := p.TryMethod("client", "CqlClientConnection", "readSelfContainedSegment"); m != nil {
 		segmentDrain(r, "segment-drain", p.SSA().FuncValue(m))
